@@ -12,15 +12,15 @@ def text(fn, e):
 
 
 def run(prog, chk):
-    drain_before_next_read(prog, chk)
-    blocking_reader_table(prog, chk)
-    queue_order(prog, chk)
-    partial_request_rule(prog, chk)
-    blocking_send_table(prog, chk)
-    close_reset_table(prog, chk)
-    prefix_table(prog, chk)
-    nonblocking_connect_rule(prog, chk)
-    _run(prog, chk)
+    chk.defer(drain_before_next_read, prog, chk)
+    chk.defer(blocking_reader_table, prog, chk)
+    chk.defer(queue_order, prog, chk)
+    chk.defer(partial_request_rule, prog, chk)
+    chk.defer(blocking_send_table, prog, chk)
+    chk.defer(close_reset_table, prog, chk)
+    chk.defer(prefix_table, prog, chk)
+    chk.defer(nonblocking_connect_rule, prog, chk)
+    chk.defer(_run, prog, chk)
 
 
 def _run(prog, chk):
@@ -642,43 +642,86 @@ def nonblocking_connect_rule(prog, chk):
     not treated as a failure."""
     chk.rule("C14.nonblock", "async TCP: the socket is non-blocking before connect(); EINPROGRESS / EWOULDBLOCK is not a failure", floor=2)
     fn = prog.fn("openSocket", "net_tcp_async.c")
-    conns = {b for b, i, c in fn.calls("connect")}
-    if not conns:
+    if not list(fn.calls("connect")):
         raise AnalysisBroken("openSocket: no connect() call")
+    # openSocket is evaluated on one address record; the calls that can set the mode (ioctl, fcntl, the socket type) answer as the
+    # scenario says, and the ORDER of the system calls made is read from the trace: connect(fd) must come after a mode-setting call on
+    # fd that succeeded - with every call succeeding, and with each of the mode-related calls failing in turn.
+    from ksirules.interp import TOP, Interp, Ptr, succeed_model
+    from ksirules.model import lvalue_key
+    tp, sp = [p["n"] for p in fn.params]
+    FIONBIO, F_GETFL, F_SETFL, NONBLOCK = 0x5421, 3, 4, 0x800
 
-    class NB(Guard):
-        name = "non-blocking mode set"
+    def scenario(fail):
+        seq, cnt = [], [0]
 
-        def passes(self, f, e):
+        def gai(I, p, node, args):
+            a3 = strip(node["a"][3])
+            I.write(p, I.canon(p, lvalue_key(a3["e"], I.fn)), Ptr("AI"))
+            return 0
+
+        def mode(name):
+            def f(I, p, node, args):
+                k = cnt[0]
+                cnt[0] += 1
+                r = -1 if k == fail else (2 if (name == "fcntl" and args[1] == F_GETFL) else 0)
+                a2 = args[2] if len(args) > 2 else None
+                if isinstance(a2, Ptr) and getattr(a2, "addr", False):
+                    a2 = ("&", I.read(p, a2.what))
+                seq.append((name, args[0], args[1], a2, r))
+                return r
+            return f
+
+        def sock(I, p, node, args):
+            seq.append(("socket", 5, None, args[1], 5))
+            return 5
+
+        def conn(I, p, node, args):
+            seq.append(("connect", args[0], None, None, 0))
+            return 0
+        quiet = lambda I, p, n, a: TOP
+        ov = {"getaddrinfo": gai, "ioctl": mode("ioctl"), "ioctlsocket": mode("ioctl"), "fcntl": mode("fcntl"), "socket": sock, "connect": conn,
+              "memset": lambda I, p, n, a: a[0], "KSI_snprintf": lambda I, p, n, a: 1, "time": quiet, "freeaddrinfo": quiet, "close": lambda I, p, n, a: 0,
+              "KSI_ERR_clearErrors": quiet, "KSI_ERR_push": quiet, "gai_strerror": lambda I, p, n, a: Ptr("text"), "__errno_location": lambda I, p, n, a: Ptr("ERRNO")}
+        inputs = {tp: Ptr("T"), sp: Ptr("FD"), "T->ctx": Ptr("ctx"), "T->host": Ptr("host"), "T->port": 80, "AI->ai_protocol": 6, "AI->ai_next": 0,
+                  "AI->ai_family": 2, "AI->ai_socktype": 1, "AI->ai_addr": Ptr("addr"), "AI->ai_addrlen": 16}
+        I = Interp(fn, inputs=inputs, call_model=succeed_model(prog, ov), on_unknown="stop", prog=prog, loop_bound=4)
+        ps = I.run()
+        chk.paths += len(ps)
+        if len(ps) != 1 or ps[0].undetermined:
+            raise AnalysisBroken("openSocket: evaluation not determined (mode call %s failing): %s" % (fail, [q.undetermined[:1] for q in ps]))
+        return seq, cnt[0]
+
+    def sets_mode(ev):
+        name, fd, req, arg, r = ev
+        if name == "socket":
+            return isinstance(arg, int) and bool(arg & NONBLOCK)
+        if r != 0:
             return False
+        if name == "ioctl":
+            return req == FIONBIO and not (isinstance(arg, tuple) and arg[1] == 0) and arg != 0
+        return name == "fcntl" and req == F_SETFL and isinstance(arg, int) and bool(arg & NONBLOCK)
 
-    def is_nb_call(c):
-        nm = c.get("fn") or ""
-        txt = show(c, fn)
-        return (nm == "ioctl" and "FIONBIO" in txt or nm in ("ioctlsocket",) or (nm == "fcntl" and "O_NONBLOCK" in txt)) or \
-               (nm == "ioctl" and len(c["a"]) > 1 and is_int(fn.resolve(strip(c["a"][1]))) and strip(fn.resolve(strip(c["a"][1])))["v"] == 0x5421)
-    nbs = {b for b, i, c in fn.calls() if is_nb_call(c)}
-    if not nbs:
-        w = True
-    else:
-        # remove the blocks that set the mode: is connect() still reachable from the entry?
-        seen, work = {fn.entry}, [fn.entry]
-        w = False
-        while work:
-            cur = work.pop()
-            if cur in conns:
-                w = True
-                break
-            if cur in nbs:
-                continue
-            for e in fn.succ[cur]:
-                if e.dst not in seen:
-                    seen.add(e.dst)
-                    work.append(e.dst)
+    def judge(seq):
+        ready = set()
+        for ev in seq:
+            if sets_mode(ev):
+                ready.add(ev[1])
+            if ev[0] == "connect" and ev[1] not in ready:
+                return False
+        return True
+    seq, nmode = scenario(None)
+    show_seq = lambda q: ", ".join("%s(%s)%s" % (e[0], "" if e[2] is None else hex(e[2]), "" if e[0] in ("socket", "connect") else "=%d" % e[4]) for e in q)
+    w = not (judge(seq) and any(e[0] == "connect" for e in seq))
     chk.ob("C14.nonblock", "openSocket:connect<=nonblocking", not w,
-           "every path to connect() passes the switch to non-blocking mode%s" % ("" if not w else
-           "; a path reaches connect() without it: an unanswered connection attempt blocks the whole service for the kernel's retry period, the connect timeout is never evaluated"),
+           "system calls in order: %s%s" % (show_seq(seq), "" if not w else
+           "; connect() is reached on a socket that was not switched to non-blocking mode before: an unanswered connection attempt blocks the whole service for the kernel's retry period, the connect timeout is never evaluated"),
            loc=fn.loc(), fn=fn)
+    for k in range(nmode):
+        seqk, _ = scenario(k)
+        chk.ob("C14.nonblock", "openSocket:connect<=nonblocking[mode call %d fails]" % k, judge(seqk),
+               "system calls in order: %s%s" % (show_seq(seqk), "" if judge(seqk) else "; the connection attempt is made although the mode could not be set"),
+               loc=fn.loc(), fn=fn)
     # the in-progress outcome
     txt = " ".join(show(fn.deep(fn.branch_cond(b)), fn) for b in fn.blocks if fn.branch_cond(b) is not None)
     ok = ("EINPROGRESS" in txt or "115" in txt) and ("EWOULDBLOCK" in txt or "EAGAIN" in txt or "11" in txt)
